@@ -2,6 +2,7 @@
 //! observation lines that tools/ compares with the Coq model.
 mod codec;
 mod comp;
+mod net;
 
 fn main() {
     let args: Vec<String> = std::env::args().collect();
@@ -10,6 +11,7 @@ fn main() {
         std::process::exit(2);
     }
     let code = match args[1].as_str() {
+        "sim" => net::sim(&args[2..]),
         "from_ip" => comp::from_ip(&args[2..]),
         "txn" => comp::txn(&args[2..]),
         "storage" => comp::storage(&args[2..]),
